@@ -704,6 +704,7 @@ pub fn run(run: &mut Run) {
     run.rule = "(a) LSP histories on the real harper-ls (sandboxed HOME/XDG, buffer = disk): 1-3 documents (plain, Markdown, Rust, Python) mentioning non-words from an 18-word vocabulary (ASCII, non-ASCII Latin, straight and curly apostrophes); ops AddToUserDict / AddToFileDict (word = text under a published spelling diagnostic, as a code action sends it), Change, Restart; after every step: added words are no longer reported in any subsequently checked text they apply to, all other diagnostics unchanged, a file-dictionary word does not leak to other files, the dictionary file (lines as a set) equals the model, a restart reproduces the diagnostics. (c) crash points: the save is recorded under strace; every prefix of the globally ordered file mutations, and every short write, is replayed in a file-system model (checked to reproduce the real final state) and must reload to the previous words or the previous words plus the new one. Non-trivial (a) = >=2 adds and (a restart or a second document); (c) = pre-state with >=2 words.".into();
     run.threads = run.threads.min(8);
     case_variant_subrun(run);
+    run.max_shrink_iters = 80;
     let n = run.n(150, 1_500);
     let max_ops = run.tier.pick(8usize, 14usize);
     run.prop("lsp_histories", n, move || history_strategy(max_ops), test_history);
